@@ -21,12 +21,16 @@ func (t *Dense) T(axes ...int) (err error) {
 			return
 		}
 
-		// check if the current axes are just a reverse of the previous transpose's
-		isReversed := true
-		for i, s := range t.oshape() {
-			if transform.Shape()[i] != s {
-				isReversed = false
-				break
+		// check if the current axes are just a reverse of the previous transpose's,
+		// i.e. the two permutations compose to the identity (comparing the resulting
+		// shape with the old one is not enough: axes of equal length look alike)
+		isReversed := len(axes) == len(t.transposeWith)
+		if isReversed {
+			for i, a := range axes {
+				if t.transposeWith[a] != i {
+					isReversed = false
+					break
+				}
 			}
 		}
 
@@ -38,6 +42,12 @@ func (t *Dense) T(axes ...int) (err error) {
 
 		// cool beans. No funny reversals. We'd have to actually do transpose then
 		t.Transpose()
+
+		// the pending transpose has been applied to the data: the new access pattern
+		// has to be derived from the strides the tensor has now
+		if transform, axes, err = t.AP.T(axes...); err != nil {
+			return handleNoOp(err)
+		}
 	}
 
 	// swap out the old and the new
